@@ -8,6 +8,8 @@ import (
 	"math/big"
 	"sort"
 	"strings"
+	"crypto/sha256"
+	"encoding/hex"
 )
 
 type SortKind int
@@ -986,4 +988,40 @@ func exprSize(t *Term) int {
 		}
 	}
 	return n
+}
+
+
+// ---------- structural hashing (independent of term ids) ----------
+
+var structHashMemo = map[int]string{}
+
+var commutativeOps = map[string]bool{"=": true, "and": true, "or": true, "+": true, "bvadd": true, "bvmul": true, "bvand": true, "bvor": true, "bvxor": true, "distinct": true}
+
+// StructHash is a hash of the term's structure - operators, names, constants, sorts, and the facts attached to
+// its sub-terms - that does not depend on term ids (argument order of commutative operators is normalised).
+func (t *Term) StructHash() string {
+	if h, ok := structHashMemo[t.id]; ok {
+		return h
+	}
+	structHashMemo[t.id] = "" // cycles cannot occur in a DAG; the placeholder guards re-entry through facts
+	var parts []string
+	for _, a := range t.args {
+		parts = append(parts, a.StructHash())
+	}
+	if commutativeOps[t.op] {
+		sort.Strings(parts)
+	}
+	var fparts []string
+	for _, f := range TS.facts[t.id] {
+		fparts = append(fparts, f.StructHash())
+	}
+	sort.Strings(fparts)
+	v := ""
+	if t.val != nil {
+		v = t.val.String()
+	}
+	sum := sha256.Sum256([]byte(t.op + "\x00" + t.name + "\x00" + v + "\x00" + t.sort.String() + "\x00" + strings.Join(parts, ",") + "\x00" + strings.Join(fparts, ",")))
+	h := hex.EncodeToString(sum[:12])
+	structHashMemo[t.id] = h
+	return h
 }
